@@ -36,9 +36,9 @@ class Holder:
         if self.sel_entry is None:
             ctx.missing(rule, "selection", "create_presentation does not assign hs_disclosures from a crate-local selection function")
             return
-        self.sel_fns = [fx.view(n) for n in sorted(cg.reachable_from(self.g, [self.sel_entry.name])) if n.startswith("holder::") and fx.fns[n].kind != "closure"
-                        and (fx.fns[n].raw.get("ret_ty") or "").startswith("std::result::Result<" + VEC_S)]
-        self.sel_all = [fx.view(n) for n in sorted(cg.reachable_from(self.g, [self.sel_entry.name])) if n.startswith("holder::")]
+        self.sel_fns = [f for f in fx.subjects(sorted(cg.reachable_from(self.g, [self.sel_entry.name]))) if f.name.startswith("holder::") and f.kind != "closure"
+                        and (f.raw.get("ret_ty") or "").startswith("std::result::Result<" + VEC_S)]
+        self.sel_all = [f for f in fx.subjects(sorted(cg.reachable_from(self.g, [self.sel_entry.name]))) if f.name.startswith("holder::")]
         self.ok = True
 
     def result_vec(self, fn):
